@@ -5,17 +5,22 @@ HERE = os.path.dirname(os.path.dirname(os.path.abspath(__file__)))
 
 CLAIMED = {
  'C14': dict(
-   text='Coq theorems (partial) about the model parser (lexer of parse.y byte for byte, recursive-descent recogniser of the grammar, semantic checks, macro table, tilde '
-        'expansion, regcomp as oracle): whatever else the file contains, an accepted configuration satisfies in every rule of every block the semantic rules (discard / reject '
+   text='Coq theorems about the model parser (lexer of parse.y byte for byte, recursive-descent recogniser of the grammar, semantic checks, macro table, tilde '
+        'expansion, regcomp as oracle): (1) whatever else the file contains, an accepted configuration satisfies in every rule of every block the semantic rules (discard / reject '
         'alone, every rule has an action, attachment blocks only exec, no empty block, reject only under stdin, exec body only with stdin, patterns compile and never carry l '
         'and u, ages fit 32 bits) - so one defective rule rejects the whole file; integers never exceed 2^32-1 and strings / patterns never exceed the lexeme buffer; a rejected '
-        'configuration makes main exit non-zero with no message examined. Tied by config_parse (sanitizer build, forked per file) vs the extracted model on grammar-generated '
-        'configurations (must be accepted, trees equal), 39 classes of invalidating edits at random / every applicable position (must be rejected with a file:line: diagnostic), '
+        'configuration makes main exit non-zero with no message examined. (2) The converse, C14_generated_accepted: every configuration generated from the documented grammar - an '
+        'abstract syntax tree of maildir / stdin sections, rules nested to any depth, conditions over and / or / ! / parentheses / attachment / body / header / date / new / old / all / '
+        'isdirectory / command, all twelve actions incl. exec options and attachment blocks - that satisfies the semantic rules (decidable secs_ok), written out with ANY separator of '
+        'white space and comments before every token, is accepted with the fuel config_parse gives itself and yields the tree the grammar denotes. '
+        'Tied by config_parse (sanitizer build, forked per file) vs the extracted model on grammar-generated '
+        'configurations (must be accepted, trees equal), 45 classes of invalidating edits at random / every applicable position (must be rejected with a file:line: diagnostic), '
         'byte-level mutations (accept/reject and tree must agree; no crash or hang), and the binary on rejected files with a populated maildir (non-zero exit, diagnostic, nothing '
-        'changed, no command run).',
-   note='NOT proved: the converse (every grammar-generated well-formed file is accepted) and anything about the yacc automaton (error recovery, termination on arbitrary '
-        'bytes): both are covered by the differential runs only. The model stops at the first diagnostic; the number and text of later diagnostics are not modelled.',
-   technique='Coq proof (induction over the fuelled mutual recogniser via factored bodies, invariant on the accumulated tree) + differential runs with a defect catalogue',
+        'changed, no command run). Defects F-11 (macro composed from two values) and F-23 (a NUL byte ended parsing silently) repaired by fix: commits.',
+   note='Partial: nothing is proved about the yacc automaton (error recovery after the first diagnostic, termination on arbitrary bytes) - covered by the differential runs only; the '
+        'acceptance theorem leaves out macros, tilde expansion and escaped delimiters (strings without "$" / leading "~" / quote / backslash). The model stops at the first '
+        'diagnostic; the number and text of later diagnostics are not modelled.',
+   technique='Coq proof (induction over the fuelled mutual recogniser via factored bodies; acceptance by size-bounded induction over the syntax tree with lexer lemmas per token and a fuel bound against the rendered length) + differential runs with a defect catalogue',
    ref='DESIGN 6 C14'),
  'C15': dict(
    text='Coq theorems: the day count of the model is the Gregorian calendar on 1970-2037 (origin, and every one of the 24837 days steps by one: finite sweep lifted); each of the '
